@@ -20,8 +20,9 @@ Inputs are the `OsuObject`s *after* `convert_objects` and `compute_slider_cursor
 constructor and the evaluators read of them).  `f32` arithmetic is `r32 (a op b)` (see `PPOps.r32`).
 `previous(n)` / `next(n)` are checked lookups returning `Option`.
 
+`RhythmEvaluator::evaluate_diff_of` with `RhythmIsland` / `IslandCount` (speed.rs) is the last section.
 NOT modelled here: `compute_slider_cursor_pos`, `OsuSlider::lazy_travel_time` (they produce the `lazy_*`
-inputs), `RhythmEvaluator` (its output enters the theorems only as a non-negative factor, see Props/C09d).
+inputs; `lazy_travel_dist ≥ 0` is the named interface hypothesis `RawOK`).
 
 The `Float` instance is compared with the real constructor / evaluators through the `OSK` lines
 (hook `osu::verif::skill_probe`); the instance over ℝ is what `Props/C09d.lean` is about.  Core Lean only.
@@ -408,6 +409,186 @@ def speedEvaluate (objs : List (DiffObj R)) (curr : DiffObj R) (hitWindow : R) (
     let distBonus : R := if autopilot then 0.0 else distBonus
     let difficulty := (1.0 + speedBonus + distBonus) * 1000.0 / strainTime
     difficulty * doubletapness
+
+/-! ### rhythm (`RhythmEvaluator`, `RhythmIsland`, `IslandCount`) -/
+
+/-- `RhythmIsland` (`delta_difference_eps` is the same for every island of one evaluation) -/
+structure Island where
+  delta : Int
+  deltaCount : Int
+  deriving DecidableEq, Repr, Inhabited
+
+def i32Max : Int := 2147483647
+
+/-- `RhythmIsland::new` -/
+def Island.new : Island := ⟨0, 0⟩
+/-- `RhythmIsland::new_with_delta(delta, eps)`: `delta.max(MIN_DELTA_TIME)`, count 1 -/
+def Island.newWithDelta (delta : Int) : Island := ⟨max delta 25, 1⟩
+/-- `add_delta` -/
+def Island.addDelta (i : Island) (delta : Int) : Island :=
+  { delta := if i.delta = i32Max then max delta 25 else i.delta, deltaCount := i.deltaCount + 1 }
+/-- `is_similar_polarity` -/
+def Island.isSimilarPolarity (a b : Island) : Bool := a.deltaCount % 2 == b.deltaCount % 2
+/-- `is_default` -/
+def Island.isDefault (eps : R) (i : Island) : Bool :=
+  lt (abs eps) f64Epsilon && i.delta == i32Max && i.deltaCount == 0
+/-- `PartialEq for RhythmIsland`: `f64::from((self.delta - other.delta).abs()) < self.eps && counts equal` -/
+def Island.eqv (eps : R) (a b : Island) : Bool :=
+  lt (ofInt (a.delta - b.delta).natAbs) eps && a.deltaCount == b.deltaCount
+
+/-- `logistic(x, midpoint_offset, multiplier, Some(max_value))` -/
+def logistic (x midpointOffset multiplier maxValue : R) : R :=
+  maxValue / (1.0 + exp (multiplier * (midpointOffset - x)))
+
+/-- `HISTORY_TIME_MAX` as `f64` -/
+def historyTimeMax : R := ofNat 5000
+
+/-- the `while` search for `rhythm_start`; `fuel` bounds the iterations (at most `historical_note_count`) -/
+def rhythmStartSearch (objs : List (DiffObj R)) (curr : DiffObj R) (hnc : Nat) : Nat → Nat → Nat
+  | 0, rs => rs
+  | fuel + 1, rs =>
+    match previous objs curr rs with
+    | some prev =>
+      if rs + 2 < hnc && lt (curr.startTime - prev.startTime) historyTimeMax then
+        rhythmStartSearch objs curr hnc fuel (rs + 1)
+      else rs
+    | none => rs
+
+/-- the mutable state of the `for` loop -/
+structure RhState (R : Type) where
+  sum : R
+  island : Island
+  prevIsland : Island
+  counts : List (Island × Nat)
+  startRatio : R
+  firstDeltaSwitch : Bool
+  prevObj : DiffObj R
+  lastObj : DiffObj R
+  broke : Bool
+  /-- `historical_note_count - i` underflowed (never: theorem) -/
+  underflow : Bool
+
+/-- the `island_counts` lookup / update: returns the new list and, when an entry was found and is not the
+default island, its (possibly incremented) count -/
+def islandCountsUpdate (eps : R) (counts : List (Island × Nat)) (island prevIsland : Island) :
+    List (Island × Nat) × Option Nat :=
+  match counts.findIdx? (fun e => Island.eqv eps e.1 island) with
+  | some k =>
+    match counts[k]? with
+    | some e =>
+      if !(Island.isDefault eps e.1) then
+        let c := if Island.eqv eps prevIsland island then e.2 + 1 else e.2
+        (counts.set k (e.1, c), some c)
+      else (counts ++ [(island, 1)], none)
+    | none => (counts ++ [(island, 1)], none)
+  | none => (counts ++ [(island, 1)], none)
+
+/-- `effective_ratio` before the island logic -/
+def rhythmEffectiveRatio (eps currDelta prevDelta : R) : R :=
+  let deltaDifferenceRatio := fmin prevDelta currDelta / fmax prevDelta currDelta
+  let currRatio := 1.0 + 12.0 * fmin (powf (sin (pi / deltaDifferenceRatio)) 2.0) 0.5
+  let fraction := fmax (prevDelta / currDelta) (currDelta / prevDelta)
+  let fractionMultiplier := clamp (2.0 - fraction / 8.0) 0.0 1.0
+  let windowPenalty := fmin (fmax (abs (prevDelta - currDelta) - eps) 0.0 / eps) 1.0
+  windowPenalty * currRatio * fractionMultiplier
+
+/-- `effective_ratio *= (3.0 / count as f64).min((count as f64).recip().powf(power))` when the island was found
+in `island_counts` (and is not the default island); unchanged otherwise -/
+def applyIslandRepeat (effectiveRatio : R) (island : Island) (count : Option Nat) : R :=
+  match count with
+  | some count =>
+    let power := logistic (ofInt island.delta) 58.33 0.24 2.75
+    effectiveRatio * fmin (3.0 / ofNat count) (powf (1.0 / ofNat count) power)
+  | none => effectiveRatio
+
+/-- the `else` branch of `if (prev_delta - curr_delta).abs() < eps` while counting an island -/
+def rhythmIslandEnd (eps hitWindow : R) (st : RhState R) (currObj : DiffObj R) (effectiveRatio decay : R)
+    (currDelta prevDelta lastDelta : R) : RhState R :=
+  let effectiveRatio := if currObj.base.isSlider then effectiveRatio * 0.125 else effectiveRatio
+  let effectiveRatio := if st.prevObj.base.isSlider then effectiveRatio * 0.3 else effectiveRatio
+  let effectiveRatio :=
+    if st.island.isSimilarPolarity st.prevIsland then effectiveRatio * 0.5 else effectiveRatio
+  let effectiveRatio :=
+    if lt (prevDelta + eps) lastDelta && lt (currDelta + eps) prevDelta then effectiveRatio * 0.125
+    else effectiveRatio
+  let effectiveRatio :=
+    if st.prevIsland.deltaCount == st.island.deltaCount then effectiveRatio * 0.5 else effectiveRatio
+  let upd := islandCountsUpdate eps st.counts st.island st.prevIsland
+  let effectiveRatio := applyIslandRepeat effectiveRatio st.island upd.2
+  let doubletapness := getDoubletapness st.prevObj (some currObj) hitWindow
+  let effectiveRatio := effectiveRatio * (1.0 - doubletapness * 0.75)
+  let sum := st.sum + sqrt (effectiveRatio * st.startRatio) * decay
+  { st with sum := sum, counts := upd.1, startRatio := effectiveRatio, prevIsland := st.island,
+            firstDeltaSwitch := if lt (prevDelta + eps) currDelta then false else st.firstDeltaSwitch,
+            island := Island.newWithDelta (truncI32 currDelta) }
+
+/-- the `if first_delta_switch { … } else if prev_delta > curr_delta + eps { … }` of one iteration -/
+def rhythmBranch (eps hitWindow : R) (st : RhState R) (currObj : DiffObj R) (effectiveRatio decay : R)
+    (currDelta prevDelta lastDelta : R) : RhState R :=
+  if st.firstDeltaSwitch then
+    if lt (abs (prevDelta - currDelta)) eps then
+      { st with island := st.island.addDelta (truncI32 currDelta) }
+    else rhythmIslandEnd eps hitWindow st currObj effectiveRatio decay currDelta prevDelta lastDelta
+  else if lt (currDelta + eps) prevDelta then
+    let effectiveRatio := if currObj.base.isSlider then effectiveRatio * 0.6 else effectiveRatio
+    let effectiveRatio := if st.prevObj.base.isSlider then effectiveRatio * 0.6 else effectiveRatio
+    { st with firstDeltaSwitch := true, startRatio := effectiveRatio,
+              island := Island.newWithDelta (truncI32 currDelta) }
+  else st
+
+/-- one iteration `i` of `for i in (1..=rhythm_start).rev()` once `curr.previous(i - 1)` returned `curr_obj`
+(before `last_obj = prev_obj; prev_obj = curr_obj`) -/
+def rhythmStepWith (curr : DiffObj R) (hnc : Nat) (eps hitWindow : R) (st : RhState R) (i : Nat)
+    (currObj : DiffObj R) : RhState R :=
+  let timeDecay := (historyTimeMax - (curr.startTime - currObj.startTime)) / historyTimeMax
+  let noteDecay := ofNat (hnc - i) / ofNat hnc
+  let currHistoricalDecay := fmin noteDecay timeDecay
+  let currDelta := currObj.strainTime
+  let prevDelta := st.prevObj.strainTime
+  let lastDelta := st.lastObj.strainTime
+  let effectiveRatio := rhythmEffectiveRatio eps currDelta prevDelta
+  let st : RhState R := { st with underflow := st.underflow || decide (hnc < i) }
+  let st : RhState R :=
+    rhythmBranch eps hitWindow st currObj effectiveRatio currHistoricalDecay currDelta prevDelta lastDelta
+  { st with lastObj := st.prevObj, prevObj := currObj }
+
+def rhythmStep (objs : List (DiffObj R)) (curr : DiffObj R) (hnc : Nat) (eps hitWindow : R)
+    (st : RhState R) (i : Nat) : RhState R :=
+  if st.broke then st
+  else
+    match previous objs curr (i - 1) with
+    | none => { st with broke := true }
+    | some currObj => rhythmStepWith curr hnc eps hitWindow st i currObj
+
+/-- `if let Some((prev_obj, last_obj)) = previous(rhythm_start).zip(previous(rhythm_start + 1)) { for … }`:
+the loop's final state when it ran -/
+def rhythmLoop (objs : List (DiffObj R)) (curr : DiffObj R) (hnc : Nat) (eps hitWindow : R) (rhythmStart : Nat) :
+    Option (RhState R) :=
+  match previous objs curr rhythmStart, previous objs curr (rhythmStart + 1) with
+  | some prevObj, some lastObj =>
+    let st0 : RhState R :=
+      { sum := 0.0, island := Island.new, prevIsland := Island.new, counts := [], startRatio := 0.0,
+        firstDeltaSwitch := false, prevObj := prevObj, lastObj := lastObj, broke := false, underflow := false }
+    some (((List.range rhythmStart).reverse.map (· + 1)).foldl (rhythmStep objs curr hnc eps hitWindow) st0)
+  | _, _ => none
+
+/-- `rhythm_complexity_sum` -/
+def rhythmSumOf (final : Option (RhState R)) : R := match final with | some st => st.sum | none => 0.0
+
+/-- `RhythmEvaluator::evaluate_diff_of`: `(rhythm value, the loop's final state when it ran)` -/
+def rhythmEvaluateFull (objs : List (DiffObj R)) (curr : DiffObj R) (hitWindow : R) : R × Option (RhState R) :=
+  if curr.base.isSpinner then (0.0, none)
+  else
+    let deltaDifferenceEps := hitWindow * 0.3
+    let historicalNoteCount := min curr.idx 32
+    let rhythmStart := rhythmStartSearch objs curr historicalNoteCount historicalNoteCount 0
+    let final : Option (RhState R) :=
+      rhythmLoop objs curr historicalNoteCount deltaDifferenceEps hitWindow rhythmStart
+    let rhythmComplexitySum : R := rhythmSumOf final
+    (sqrt (4.0 + rhythmComplexitySum * 0.95) / 2.0, final)
+
+def rhythmEvaluate (objs : List (DiffObj R)) (curr : DiffObj R) (hitWindow : R) : R :=
+  (rhythmEvaluateFull objs curr hitWindow).1
 
 end
 
